@@ -17,6 +17,9 @@ def load_known():
 
 
 def main(argv=None):
+    import faulthandler
+    import signal
+    faulthandler.register(signal.SIGUSR1, all_threads=True)
     ap = argparse.ArgumentParser()
     ap.add_argument("prop")
     ap.add_argument("--tier", default=None)
@@ -29,6 +32,7 @@ def main(argv=None):
         seed = int(os.environ.get("VERIF_SEED", "0"))
     except ValueError:
         seed = 0
+    os.environ["SXV_TIER"] = tier
     prop = a.prop.upper()
     try:
         mod = importlib.import_module("sxv.props.%s" % prop.lower())
